@@ -205,6 +205,50 @@ def sequence_case(src, idx, seed, tier):
     return recipe, problems
 
 
+def mntopt_table(src):
+    """name -> mask of lib/e2p/mntopts.c, read from the tree's sources on every run"""
+    defs = {}
+    for m in re.finditer(r"#define\s+(EXT[234]_DEFM_\w+)\s+(0x[0-9a-fA-F]+)", open(os.path.join(src, "lib/ext2fs/ext2_fs.h")).read()):
+        defs[m.group(1)] = int(m.group(2), 16)
+    txt = open(os.path.join(src, "lib/e2p/mntopts.c")).read()
+    body = txt[txt.index("mntopt_list[]"):]
+    body = body[:body.index("};")]
+    return {m.group(2): defs[m.group(1)] for m in re.finditer(r"\{\s*(EXT[234]_DEFM_\w+),\s*\"(\w+)\"", body) if m.group(1) in defs}
+
+
+def mntopt_case(src, mexe, table, idx, seed):
+    """sequences of tune2fs -o items: s_default_mount_opts after every run vs the extracted mnt_step"""
+    r = e2v.rng(seed, "c11mnt", idx)
+    name, opts, size = BASES[idx % len(BASES)]
+    base = mkimg.cached_fs(src, WORK, name, opts, size, 1, fill=0.3, nfiles=160, index=True)
+    img = os.path.join(WORK, "m_%d.img" % idx)
+    shutil.copy(base, img)
+    env = e2v.tool_env(src)
+    steps, problems = [], []
+    names = sorted(table)
+    jm = [n for n in names if table[n] & 0x60]
+    seqs = [[("", "journal_data"), ("", "journal_data_ordered")], [("", "journal_data_writeback"), ("", "journal_data")], [("", "journal_data_ordered"), ("^", "journal_data_ordered"), ("", "journal_data_writeback")]]
+    seq = seqs[idx] if idx < len(seqs) else [(r.choice(["", "", "^"]), r.choice(names + jm)) for _ in range(r.randint(2, 6))]
+    for neg, nm in seq:
+        cur = struct.unpack_from("<I", open(img, "rb").read(), 1024 + 0x100)[0]
+        before = open(img, "rb").read()
+        rc, out = e2v.sh([os.path.join(src, "misc/tune2fs"), "-o", neg + nm, img], env=env, timeout=300)
+        after = open(img, "rb").read()
+        new = struct.unpack_from("<I", after, 1024 + 0x100)[0]
+        mo = subprocess.run([mexe], input=("M %d %d %d\n" % (cur, 1 if neg else 0, table[nm])).encode(), stdout=subprocess.PIPE, timeout=30).stdout.decode().strip()
+        steps.append({"args": ["-o", neg + nm], "rc": rc, "before": cur, "after": new, "model": mo})
+        if rc == 0 and mo != str(new):
+            problems.append("tune2fs -o %s%s: s_default_mount_opts 0x%x -> 0x%x, the model (mask 0x%x) says %s" % (neg, nm, cur, new, table[nm], mo))
+        if rc == 0 and sb_diff(before, after, [(0x100, 0x104)]):
+            problems.append("tune2fs -o %s%s changed superblock bytes outside its field" % (neg, nm))
+        if rc != 0 and after != before:
+            problems.append("tune2fs -o %s%s failed and wrote" % (neg, nm))
+        if problems:
+            break
+    os.unlink(img)
+    return {"base": name, "steps": steps, "case_index": idx, "kind": "mount options"}, problems
+
+
 def run(res, replay=None):
     tier, seed = res.tier, res.seed
     os.makedirs(WORK, exist_ok=True)
@@ -251,11 +295,22 @@ def run(res, replay=None):
             res.sample(recipe)
         if problems:
             bad.append((recipe, problems))
-    res.cov["correspondence"] = {"feature_edits": len(fouts), "distribution": fdist, "mismatches": sum(1 for rcp, p in bad if "model" in rcp and any("mask" in x or "bits" in x for x in p)),
+    table = mntopt_table(src)
+    nm_ = 8 if tier == "quick" else 300
+    with concurrent.futures.ThreadPoolExecutor(12) as ex:
+        mouts = list(ex.map(lambda i: mntopt_case(src, mexe, table, i, seed), range(nm_)))
+    mbad = [(rcp, p) for rcp, p in mouts if p]
+    for rcp, p in mouts:
+        res.case(json.dumps(rcp), True)
+    bad += mbad
+    res.cov["correspondence"] = {"mount_option_steps": sum(len(rcp["steps"]) for rcp, p in mouts), "mount_option_mismatches": len(mbad), "mount_option_table": table,
+                                 "mount_option_compared": "s_default_mount_opts after every tune2fs -o item of generated sequences vs the extracted mnt_step, the name->mask table read from lib/e2p/mntopts.c and ext2_fs.h on every run",
+                                 "feature_edits": len(fouts), "distribution": fdist, "mismatches": sum(1 for rcp, p in bad if "model" in rcp and any("mask" in x or "bits" in x for x in p)),
                                  "compared": "for every feature name of lib/e2p x {set, clear}: refused by the extracted tune2fs_edit <=> tune2fs refuses without writing; accepted: resulting feature words differ only in the requested bit and documented side effects"}
     res.cov["oracle"] = {"evaluations": len(fouts) + len(souts), "failures": len(bad), "sequences": len(souts),
                          "statement": "after every tune2fs run that exits 0 (and the e2fsck run it asks for): identical tree, independent reader consistent, e2fsck -fn exit 0; scalar setters change only their superblock field; failed or refused runs change no file"}
     res.cov["rule"] = "6 populated base filesystems; A: all feature names x set/clear; B: sequences of 2-5 of 42 conversions (csum on/off, journal, quota, UUID, inode size, flex_bg, orphan file, mmp ...) and 20 scalar setters; non-trivial = at least one accepted step"
+    res.add_obligation("mount-option model agrees with tune2fs -o on every step", not mbad)
     res.add_obligation("feature-edit model agrees with tune2fs on every single edit", not any("model" in rcp and any("mask" in x for x in p) for rcp, p in bad))
     for recipe, problems in bad[:3]:
         res.violation("oracle", {"recipe": recipe, "problems": problems[:5]}, signature="c11:" + hashlib.sha256(json.dumps(recipe, sort_keys=True).encode()).hexdigest()[:12])
